@@ -40,6 +40,10 @@ var c16Quoted = []struct{ name, sql string }{
 	{"line-comment", "SELECT /* x */ $1 AS v -- $1\n FROM dual"},
 	{"hash-comment", "SELECT $1 AS v # $1\n FROM dual"},
 	{"block-comment", "SELECT /* $1 */ $1 AS v FROM dual"},
+	// a backslash is an ordinary character between backticks: the identifier ends at the next backtick
+	{"backtick-ending-in-backslash", "SELECT `k\\` AS a, `$1` AS q, $1 AS v FROM dual"},
+	{"backtick-ending-in-backslash-then-literal", "SELECT a AS `k\\`, '$1' AS q, $1 AS v FROM dual"},
+	{"double-quoted-ending-in-escaped-backslash", "SELECT \"k\\\\\" AS a, \"$1\" AS q, $1 AS v FROM dual"},
 }
 
 type c16 struct {
@@ -440,6 +444,36 @@ func (p *c16) checkSequences(r *core.CaseResult) {
 		}
 		base[i] = s
 	}
+	// prepared commands: a Command obtained from NewQuery stays what it is while other templates are
+	// parsed and sanitized (every ordered pair of templates, each command used twice)
+	for i1, g1 := range good {
+		for i2, g2 := range good {
+			func() {
+				defer func() {
+					if rec := recover(); rec != nil {
+						r.Fail("C16|sequence|prepared-command-panics", fmt.Sprintf("NewQuery(%q) / NewQuery(%q): %v", g1.tmpl, g2.tmpl, rec), nil)
+					}
+				}()
+				c1, err1 := sanitize.NewQuery(g1.tmpl)
+				c2, err2 := sanitize.NewQuery(g2.tmpl)
+				sanitizeNoPanic(bad[(i1+i2)%len(bad)].tmpl, bad[(i1+i2)%len(bad)].args...)
+				r.Execs += 3
+				if err1 != nil || err2 != nil {
+					r.Fail("C16|sequence|prepared-command-rejected", fmt.Sprintf("NewQuery(%q): %v; NewQuery(%q): %v", g1.tmpl, err1, g2.tmpl, err2), nil)
+					return
+				}
+				for use := 0; use < 2; use++ {
+					s1, e1 := c1.Sanitize(g1.args...)
+					s2, e2 := c2.Sanitize(g2.args...)
+					r.Execs += 2
+					if e1 != nil || e2 != nil || s1 != base[i1] || s2 != base[i2] {
+						r.Fail("C16|sequence|prepared-command-changed", fmt.Sprintf("c1 := NewQuery(%q); c2 := NewQuery(%q); c1.Sanitize(%v) = %q (%v), c2.Sanitize(%v) = %q (%v); SanitizeSQL gives %q and %q", g1.tmpl, g2.tmpl, g1.args, s1, e1, g2.args, s2, e2, base[i1], base[i2]), map[string]any{"first": g1.tmpl, "second": g2.tmpl})
+						return
+					}
+				}
+			}()
+		}
+	}
 	for round := 0; round < 3; round++ {
 		for bi, b := range bad {
 			for gi, g := range good {
@@ -462,7 +496,7 @@ func (p *c16) checkSequences(r *core.CaseResult) {
 
 func (p *c16) Meta() core.Meta {
 	return core.Meta{
-		Rule:        "string arguments: for each of 6 templates (echo, WHERE =, WHERE = AND, IN list with 2 placeholders, two select items, function arguments) every string of length 1..3 (thorough 4) over the 18-symbol alphabet {a ' \\ \" ` - # / * ; space NUL newline % $ 1 é and the lone byte 0xE9 (ill-formed UTF-8)} plus classic injection payloads: sanitized text must parse, have the template's statement shape with one string literal per placeholder whose value is the argument, and return through Exec exactly the rows a literal comparison selects; int64/float64/bool/NULL boundary values echo; 8 quoted contexts ($1 inside '...', '...''...', '...\\'...', \"...\", `...`, --, #, /* */) leave the quoted $1 alone; missing / unused / $0 / overflow / unsupported-type arguments are errors, not panics; every rejected call followed by every accepted call leaves the accepted call's output unchanged (5 x 5 sequences, 3 rounds). non-trivial = the argument contains a character that is special in the dialect",
+		Rule:        "string arguments: for each of 6 templates (echo, WHERE =, WHERE = AND, IN list with 2 placeholders, two select items, function arguments) every string of length 1..3 (thorough 4) over the 18-symbol alphabet {a ' \\ \" ` - # / * ; space NUL newline % $ 1 é and the lone byte 0xE9 (ill-formed UTF-8)} plus classic injection payloads: sanitized text must parse, have the template's statement shape with one string literal per placeholder whose value is the argument, and return through Exec exactly the rows a literal comparison selects; int64/float64/bool/NULL boundary values echo; 11 quoted contexts ($1 inside '...', '...''...', '...\\'...', \"...\", `...`, --, #, /* */, and behind a backtick / double-quoted identifier that ends in a backslash) leave the quoted $1 alone; missing / unused / $0 / overflow / unsupported-type arguments are errors, not panics; every rejected call followed by every accepted call leaves the accepted call's output unchanged (5 x 5 sequences, 3 rounds); Commands prepared with NewQuery keep their template while other templates are parsed and sanitized (every ordered pair, each used twice). non-trivial = the argument contains a character that is special in the dialect",
 		Assumptions: []string{"the dialect is the one genql.Parse accepts (MySQL: backslash escapes in string literals, backtick identifiers, double-quoted strings, # and -- comments)", "statement shape = sqlparser.String of the statement with every literal masked"},
 		Bounds:      map[string]any{"alphabet": len(p.alpha), "max_len": p.maxLen, "templates": len(c16Templates), "quoted_contexts": len(c16Quoted)},
 		Exhaustive:  true,
